@@ -31,29 +31,41 @@ type loadEv struct {
 
 // tracedReader delivers data in reads whose sizes cycle through pat (0 in pat = as much as asked for) and logs every read
 type tracedReader struct {
-	data []byte
-	pat  []int
-	i    int
-	evs  *[]loadEv
+	data    []byte
+	pat     []int
+	i       int
+	evs     *[]loadEv
+	eofData bool
 }
 
 func (r *tracedReader) Read(p []byte) (int, error) {
 	if len(r.data) == 0 {
-		*r.evs = append(*r.evs, loadEv{T: "rd"})
+		*r.evs = append(*r.evs, loadEv{T: "rd", B: 1})
 		return 0, io.EOF
 	}
 	n := len(p)
 	if len(r.pat) > 0 {
-		if k := r.pat[r.i%len(r.pat)]; k > 0 && k < n {
+		k := r.pat[r.i%len(r.pat)]
+		r.i++
+		if k == -1 {
+			// a zero-byte read without an error
+			*r.evs = append(*r.evs, loadEv{T: "rd"})
+			return 0, nil
+		}
+		if k > 0 && k < n {
 			n = k
 		}
-		r.i++
 	}
 	if n > len(r.data) {
 		n = len(r.data)
 	}
 	copy(p, r.data[:n])
 	r.data = r.data[n:]
+	if len(r.data) == 0 && r.eofData {
+		// the last bytes together with io.EOF
+		*r.evs = append(*r.evs, loadEv{T: "rd", N: n, B: 1})
+		return n, io.EOF
+	}
 	*r.evs = append(*r.evs, loadEv{T: "rd", N: n})
 	return n, nil
 }
@@ -91,7 +103,7 @@ func driveLoad(args []string) int {
 	g := newProgen(seed)
 	g.maxDepth = 2
 	r := rand.New(rand.NewSource(seed*131 + 7))
-	pats := [][]int{nil, {1}, {2}, {3, 1}, {7}, {8}, {9}, {10}, {9, 8, 1}, {100}, {4095, 2}, {4096}, {1, 0}, {5, 0, 1}}
+	pats := [][]int{nil, {1}, {2}, {3, 1}, {7}, {8}, {9}, {10}, {9, 8, 1}, {100}, {4095, 2}, {4096}, {1, 0}, {5, 0, 1}, {2, -1}, {-1, 9, -1, -1, 1}}
 	// sources: generated programs, plus size-class programs (string constants, identifiers, names, line tables around the varint
 	// classes) small enough for TLC to decode, plus a few whose code or strings exceed the loader's 4096-byte buffer
 	var srcs [][2]string
@@ -187,7 +199,7 @@ func driveLoad(args []string) int {
 				pat = [][]int{nil, {100}, {4095, 2}, {4096}, {900, 0}}[r.Intn(5)]
 			}
 			evs = evs[:0]
-			rd := &tracedReader{data: append([]byte{}, file[:c]...), pat: pat, evs: &evs}
+			rd := &tracedReader{data: append([]byte{}, file[:c]...), pat: pat, evs: &evs, eofData: !isBig && r.Intn(3) == 0}
 			var lp *bcl.Prog
 			var lerr error
 			ret := ""
